@@ -1,10 +1,10 @@
 SPECIFICATION Spec
 CONSTANTS
-  Rel = "code"
+  Rel = "rfc"
   Budget = 1
   Foreign = TRUE
-  Track = "rfc"
-  Demux = "link"
+  Track = "code"
+  Demux = "strict"
 INVARIANTS TypeOK
 PROPERTIES Recovers
 CHECK_DEADLOCK FALSE
